@@ -214,3 +214,13 @@ def av_size_family(v) -> str | None:
         if t in texts:
             return fam
     return None
+
+
+def av_term(v, atoms: dict | None = None, repl: dict | None = None, env: dict | None = None):
+    """AC-normalised algebraic term (sa.te) of an abstract value (through its rendering)."""
+    from sa import te
+
+    text = _av.show(v)
+    for k, r in (repl or {}).items():
+        text = text.replace(k, r)
+    return te.parse_term(text, env=env, atoms=atoms)
